@@ -400,6 +400,7 @@ type monitor struct {
 	votingSeen   map[uint64]map[uint64]bool // C18: peers a replica saw as voting since its last Update
 	prevCommit   map[uint64]uint64    // C02: commit index of a leader at its previous operation
 	hbAck        map[[2]uint64]map[uint64]bool // C06/C18: read ctx -> replicas that sent a HeartbeatResp carrying it
+	votingEver   map[uint64]map[uint64]bool    // every peer a replica ever saw as voting (an acknowledgement given by a voter counts after its removal)
 	votingPrev   map[uint64]string             // voting set of a replica at its previous operation
 	votingMoved  map[uint64]bool               // the voting set of a replica changed since its last Update
 	viol         []string
@@ -458,6 +459,13 @@ func (mo *monitor) observe(c *raftsim.Cluster, op string, res raftsim.Result) {
 		for _, rm := range st.Remotes {
 			if rm.Kind == 0 || rm.Kind == 2 {
 				mo.votingSeen[n.ID][rm.ID] = true
+				if mo.votingEver == nil {
+					mo.votingEver = map[uint64]map[uint64]bool{}
+				}
+				if mo.votingEver[n.ID] == nil {
+					mo.votingEver[n.ID] = map[uint64]bool{}
+				}
+				mo.votingEver[n.ID][rm.ID] = true
 				cur = append(cur, rm.ID)
 			}
 		}
@@ -788,7 +796,8 @@ func (mo *monitor) checkReadQuorum(n *raftsim.Node) {
 	for _, ackers := range mo.hbAck {
 		cnt := 1
 		for k := range ackers {
-			if voting[k] && k != n.ID {
+			// raft keeps the confirmation of a voter that was removed afterwards
+			if (voting[k] || mo.votingEver[n.ID][k]) && k != n.ID {
 				cnt++
 			}
 		}
